@@ -137,7 +137,15 @@ def assign_ids(doc, start=0):
 
 
 def generator_at(k):
+    """A generator whose next id is k."""
     g = IdGenerator()
+    if getattr(g, "_id_counter", None) == 0 and k > 64:
+        g._id_counter = k                    # fast path; verified right below
+        probe_next = IdGenerator()
+        probe_next._id_counter = k
+        if probe_next.get_next_id() == str(k):
+            return g
+        g = IdGenerator()
     for _ in range(k):
         g.get_next_id()
     return g
